@@ -26,7 +26,7 @@ ASSUMPTIONS = [
     "Cross-session = fresh interpreters with PYTHONHASHSEED in {1,2,random}.",
 ]
 SHARDS = {"quick": 16, "thorough": 16}
-TIME_CAP = {"quick": 60, "thorough": 600}
+TIME_CAP = {"quick": 60, "thorough": 900}
 
 GOLDEN = [
     ({"a": 0}, "9bfd29df07674bc4aa960cf661b5acd2"),
@@ -69,6 +69,22 @@ def gen_cases(ctx):
     if ctx.take(i):
         yield {"kind": "golden"}
     i += 1
+    rng = ctx.grng("xs")
+    # cross-session batches
+    for k in range(ctx.budget(16, 64)):
+        sps = [gen.rand_sp(rng, depth=rng.randint(1, 4), min_keys=1) for _ in range(40)]
+        if ctx.take(i):
+            yield {"kind": "xsession", "sps": sps, "hashseed": ["1", "2", "random"][k % 3]}
+        i += 1
+
+    # seeded random deep values
+    rng = ctx.grng("deep")
+    nrand = ctx.budget(600, 12000)
+    for _ in range(nrand):
+        sps = [gen.rand_sp(rng, depth=rng.randint(1, 5)) for _ in range(10)]
+        if ctx.take(i):
+            yield {"kind": "batch", "sps": sps}
+        i += 1
     # bounded-exhaustive part
     depth = 3
     per_case = 40
@@ -88,20 +104,6 @@ def gen_cases(ctx):
     if batch:
         if ctx.take(i):
             yield {"kind": "batch", "sps": batch}
-        i += 1
-    # seeded random deep values
-    rng = ctx.grng("deep")
-    nrand = ctx.budget(600, 12000)
-    for _ in range(nrand):
-        sps = [gen.rand_sp(rng, depth=rng.randint(1, 5)) for _ in range(10)]
-        if ctx.take(i):
-            yield {"kind": "batch", "sps": sps}
-        i += 1
-    # cross-session batches
-    for k in range(ctx.budget(16, 64)):
-        sps = [gen.rand_sp(rng, depth=rng.randint(1, 4), min_keys=1) for _ in range(40)]
-        if ctx.take(i):
-            yield {"kind": "xsession", "sps": sps, "hashseed": ["1", "2", "random"][k % 3]}
         i += 1
 
 
